@@ -964,7 +964,7 @@ func (loc *Location) ResolveService(ctx *Context, name string) (string, error) {
 	}
 
 	urls, given := loc.Control().Services[name]
-	if given {
+	if given && 0 < len(urls) {
 		url := urls[rand.Intn(len(urls))]
 		Log(DEBUG, ctx, "System.resolveService", "service", name, "urls", urls, "url", url)
 		return url, nil
